@@ -34,6 +34,8 @@ type StreamInfo struct {
 
 var errBroken = errors.New("stream broken")
 
+const pooledMaxLine = 1024 * 1024 // httpd config.DefaultMaxLineSize
+
 // capChain replays, on a scratch buffer, what ReadLinesBlockExt does to the capacity of dstBuf: Resize to the block
 // size, append of the carried tail, and the doublings when a full buffer holds no newline.
 func capChain(capBefore, bs, tailLen int) []int {
@@ -63,7 +65,10 @@ func runStreamSched(r *gen.Rand, body []byte, blockSize, maxLine int, broken boo
 		rd.end = errBroken
 	}
 	ctx := influx.GetStreamContext(rd, maxLine)
-	defer influx.PutStreamContext(ctx)
+	// a context taken from the pool channel keeps the max-line-size of its last user (GetStreamContext sets it only on
+	// the sync.Pool path): set it here, and put the server's default back before the context returns to the pool, or
+	// the write endpoint of the httpw class would inherit a tiny limit
+	defer func() { ctx.MaxLineSize = pooledMaxLine; influx.PutStreamContext(ctx) }()
 	ctx.MaxLineSize = maxLine
 	info = &StreamInfo{MaxLine: maxLine, Body: hx(string(body)), Sched: [][]int{}, Blocks: []BlockObs{}}
 	if broken {
@@ -156,7 +161,8 @@ func (c *chunkReader) Read(p []byte) (int, error) {
 // runStream is serveWrite's read loop: one unmarshal work per block, rows concatenated in block order.
 func runStream(body []byte, blockSize int, chunks []int) (rows []RowObs, isErr bool, blocks int) {
 	ctx := influx.GetStreamContext(&chunkReader{b: append([]byte{}, body...), chunks: chunks}, 256*1024)
-	defer influx.PutStreamContext(ctx)
+	defer func() { ctx.MaxLineSize = pooledMaxLine; influx.PutStreamContext(ctx) }()
+	ctx.MaxLineSize = 256 * 1024
 	// a pooled context keeps the (possibly grown) buffer of its last use, and ReadLinesBlockExt only ever enlarges it:
 	// hand every call a buffer of exactly the block size, otherwise the whole body arrives in one block
 	ctx.ReqBuf = make([]byte, 0, blockSize)
